@@ -336,10 +336,12 @@ def run_query(ctx, q, cache, lock):
         if q.validate_iters:
             v = validate_cached(ctx, q, bins, cache, lock)
             r['translation_validation'] = v
-            if not v['agree']:
+            sanitizer_abort = (not v['agree']) and ('Sanitizer' in v['real'] or 'runtime error' in v['real'])
+            if not v['agree'] and not sanitizer_abort:
                 r['status'] = 'inconclusive'
                 r['reason'] = 'translated C and real g++ build disagree on random inputs (ll2c/model bug?)'
                 return r
+            # the REAL build died under ASan/UBSan on a random input: a violation candidate, let CBMC find and replay it
         cmd, rc, out, err, dt, rss = run_cbmc(ctx, q, b)
         r['cbmc_s'] = round(dt, 2)
         r['rss_mb'] = rss
@@ -371,6 +373,10 @@ def run_query(ctx, q, cache, lock):
             r['reason'] = 'vacuity guard: witness not reached: ' + '; '.join(x['msg'] for x in unreached[:4]) if wit else 'harness has no REACH witness'
             return r
         if not fails:
+            if q.validate_iters and not r['translation_validation']['agree']:
+                r['status'] = 'inconclusive'
+                r['reason'] = 'real build aborted under a sanitizer during translation validation but CBMC found no violation'
+                return r
             r['status'] = 'held'
             return r
         # counterexample(s): fetch traces, replay on the real build
